@@ -233,6 +233,37 @@ def run(ck, facts, tier):
         ck.floor(R, "invert.fold-sites", n, 1)
         dominated_by_calls(ck, R, inv, "Inverter::new", "InferenceTable::canonicalize", "Inverter::new", "canonicalize(value)")
 
+    R = "C16.INVERT-CONSISTENT"
+    ck.rule(R, "K3/K2: inversion is a consistent renaming: in each Inverter::fold_free_placeholder_{ty,lifetime,const} the fresh variable "
+               "that replaces a placeholder is created only inside the memo-map update keyed by that placeholder (entry(p).or_insert_with / "
+               "insert(p, ..)), so two occurrences of one placeholder become one variable; a variable created outside the update makes "
+               "`P(!x, !x)` invert to the canonical form of `P(!x, !y)`")
+    n = 0
+    for kind in ("ty", "lifetime", "const"):
+        key = "<chalk_solve::infer::invert::Inverter as chalk_ir::fold::TypeFolder>::fold_free_placeholder_" + kind
+        b = need_body(ck, facts, R, key)
+        if not b:
+            continue
+        th = facts.thir(key)
+        fresh = [c for c in calls(th, "new_variable")]
+        memo = [c for c in calls(th) if str(c.get("fn", "")).split("::")[-1] in ("or_insert_with", "or_insert", "insert", "or_insert_with_key")]
+        inside = set()
+        for m_ in memo:
+            for x in walk(m_):
+                inside.add(id(x))
+        from kit import params_of_type
+        from core import expr_vars as _ev
+        pp = params_of_type(b, "PlaceholderIndex")
+        keyed = bool(pp) and any(_ev(m_) & pp for m_ in memo)
+        n += len(fresh)
+        inst = "Inverter::fold_free_placeholder_%s" % kind
+        if fresh and memo and all(id(c) in inside for c in fresh) and keyed:
+            ck.ok(R, inst, "fresh variable created only inside the memo update")
+        else:
+            ck.violation(R, inst, b.where(), "the variable standing for a placeholder is not (only) created inside the memo-map update: "
+                         "%d creation(s), %d memo update(s)" % (len(fresh), len(memo)))
+    ck.floor(R, "Inverter.fresh-variable-sites", n, 3)
+
     R = "C16.UCOLLECT-ALL"
     ck.rule(R, "K1: UCollector (gathers every universe mentioned by the value before compression) never aborts its traversal (no visit method returns ControlFlow::Break)")
     collector_never_breaks(ck, R, facts, "chalk_solve", "<chalk_solve::infer::ucanonicalize::UCollector as chalk_ir::visit::TypeVisitor>::", "UCollector", 1)
